@@ -247,6 +247,9 @@ static void reg_math(const char* nq, uint64_t id) {
                                     std::numeric_limits<T>::max(), -std::numeric_limits<T>::max()};
         const T v = rep % 10 == 9 ? special[(rep / 10) % 9] : rng.logu<T>(-10, 10, true);
         const T p = rng.logu<T>(-2, 2, true);
+        const float pf = rng.logu<float>(-2, 2, true);
+        const double pd = rng.logu<double>(-2, 2, true);
+        const long double pl = rng.logu<long double>(-2, 2, true);
         const Q q = Op<Q>::load(&v);
         const T x = q.Value();
         struct { const char* n; T got, want; } rows[] = {
@@ -255,6 +258,10 @@ static void reg_math(const char* nq, uint64_t id) {
             {"log", static_cast<T>(std::log(q)), std::log(x)},       {"log2", static_cast<T>(std::log2(q)), std::log2(x)},
             {"log10", static_cast<T>(std::log10(q)), std::log10(x)}, {"pow", static_cast<T>(std::pow(q, p)), std::pow(x, p)},
             {"pow-int", static_cast<T>(std::pow(q, 3)), static_cast<T>(std::pow(x, 3))},
+            // an exponent of another numeric type is used as given (not narrowed to the quantity's type first)
+            {"pow-float-exponent", static_cast<T>(std::pow(q, pf)), static_cast<T>(std::pow(x, pf))},
+            {"pow-double-exponent", static_cast<T>(std::pow(q, pd)), static_cast<T>(std::pow(x, pd))},
+            {"pow-long-double-exponent", static_cast<T>(std::pow(q, pl)), static_cast<T>(std::pow(x, pl))},
         };
         for (auto& r : rows) {
           R.eval();
